@@ -1,6 +1,7 @@
 import PP.Driver.Codec
 import PP.Model.StrDoc
 import PP.Driver.ValCodec
+import PP.Driver.RegCodec
 open PP PP.Sexp
 
 /-- one layout configuration `(w rw smart)` -/
@@ -17,6 +18,14 @@ def handle (req : Sexp) : Sexp :=
         let out := layout cfg d
         .list [encodeSDocs out, ofStr "text" (render out)])
     | _, _ => sym "bad-request"
+  | .list (.atom "thr" :: r) =>
+    match thrRequest r with
+    | some x => x
+    | none => sym "bad-request"
+  | .list (.atom "reg" :: ops) =>
+    match ops.mapM decodeRegOp with
+    | some ops => .list (sym "ok" :: regTrace ops)
+    | none => sym "bad-request"
   | .list (.atom "pformat" :: v :: sets) =>
     match decodeVal v, sets.mapM decodeSettings with
     | some v, some sets =>
